@@ -6,14 +6,14 @@ from harness import muxlib, muxgen
 PID = 'C02'
 RULE = ('random typed pipelines (depth <= 3: simple stateful operators inside group_by/roll/split/time_split/tee_map, '
         'nested) x well-formed keyed traces with 1-4 slots, sparse/descending indices, up to 3 successive lifetimes per '
-        'slot, random interleaving; composite operators placed directly on 2-3 interleaved keys (and nested once more) with inner stateful operators. non-trivial = at least one stateful operator, >= 2 lifetimes, and a slot that is '
+        'slot, random interleaving; composite operators placed directly on 2-3 interleaved keys (and nested once more) with inner stateful operators; a scale family (hundreds of items per key, 70-270 keys live at once and created in waves, hundreds of groups, window / stride / batch / lag / take / pad sizes of 50-300; the model is evaluated up to 450 events, beyond that the oracle alone). non-trivial = at least one stateful operator, >= 2 lifetimes, and a slot that is '
         'reused or >= 2 interleaved keys; distinct = distinct (pipeline, trace) JSON')
 TRUSTED = ['modelled not verified: RxPY synchronous delivery / Subject fan-out order / AutoDetachObserver stop after '
            'on_error; Python dict insertion order, ==/hash on keys; copy.deepcopy freshness of scan seeds',
            'MemoryStore is abstracted to per-slot cells (tied separately by C14)']
 ASSUMPTIONS = ['user callbacks are total functions of the item or raise inside map/filter/scan (errors_handled fragment)',
                'tee_map branches do not leak unhandled errors']
-SHARD = 150
+SHARD = 40
 COQ_TARGETS = ['theories/Mux/MuxCorr.vo']
 CTYPE = 'muxcase'
 CHECKER = 'mux_check'
@@ -58,7 +58,35 @@ def generate(rng, tier):
                 ast = head(ast)
             trace = muxgen.gen_trace(rng, muxgen.INT, nkeys=rng.choice([2, 3]), sorted_=rng.random() < 0.5)
         cases.append({'ast': ast, 'trace': trace})
-    return cases
+    for i in range({'quick': 12, 'thorough': 300, 'search': 4}[tier]):
+        # scale: thresholds of type widths, buffer sizes and growth policies (hundreds of items / keys / groups,
+        # large window, stride, batch, lag, take and pad sizes, slot indices in the hundreds and thousands)
+        big = rng.choice([50, 64, 128, 130, 200, 256, 300])
+        inner = [rng.choice([['count', 0], ['count', 1], ['scan', ['add'], muxgen.ev(0), 0, None], ['to_list'], ['last'],
+                             ['take', big], ['lag', 1], ['distinct', None]])]
+        op = rng.choice([['take', big], ['lag', rng.choice([1, 60, 130])], ['batch', big], ['distinct', None], ['duc', None],
+                         ['count', 0], ['to_list'], ['pad_start', big, muxgen.ev(7)], ['pad_end', big, muxgen.ev(7)],
+                         ['roll', big, rng.choice([1, 49, big, big + 7]), inner], ['roll', rng.choice([3, 5]), rng.choice([2, 70]), inner],
+                         ['group', rng.choice([['id'], ['mod', 300], ['mod', 2]]), inner],
+                         ['split', rng.choice([['floordiv', 50], ['id'], ['floordiv', 2]]), inner],
+                         ['tee', rng.choice(['zip', 'merge', 'combine_latest']), [[['count', 0]], [['lag', 1]], [['take', big]]]],
+                         ['tee', rng.choice(['zip', 'zip', 'combine_latest']), [[['first']], [['last']], [['count', 1]]]]])
+        shape = None
+        if i % 4 == 0:
+            # many live keys created in waves x join cells that stay pending (branches of different cadence)
+            op = ['tee', rng.choice(['zip', 'zip', 'combine_latest']), [[['first']], [['last']], [['count', 1]]]]
+            shape = 'many'
+        cases.append({'ast': [op], 'trace': muxgen.gen_trace_scale(rng, shape), 'scale': True})
+    # spread the expensive cases over the shards (one coqc per shard, run in parallel)
+    small = [c for c in cases if not c.get('scale')]
+    bigs = [c for c in cases if c.get('scale')]
+    step = max(1, len(small) // max(1, len(bigs)))
+    out = []
+    for j, c in enumerate(small):
+        if j % step == 0 and bigs:
+            out.append(bigs.pop())
+        out.append(c)
+    return out + bigs
 
 
 def run_impl(case):
